@@ -101,7 +101,7 @@ SS_RULE = "; bounded-exhaustive small histories (every sequence of <= 3 of 14-15
 
 PROPS = {
     "C01": {"dev_families": lambda rng, tier: [sc for sc in gen.fam_extremal(rng, tier) if sc[0].startswith("extremal-chain") or sc[0].startswith("extremal-ipfix-records-2000")],
-            "oracle": "C01", "view": ["outcome"], "families": lambda rng, tier: gen.fam_extremal(rng, tier) + gen.fam_budget(rng, tier) + fam_general(rng, tier) + gen.fam_redefine(rng, n(tier, 40, 300)) +
+            "oracle": "C01", "view": ["outcome"], "families": lambda rng, tier: gen.fam_extremal(rng, tier) + gen.fam_budget(rng, tier) + gen.fam_retry(rng, tier) + gen.fam_bigtemplate_small_sets(rng, tier) + fam_general(rng, tier) + gen.fam_redefine(rng, n(tier, 40, 300)) +
             gen.fam_widths(rng, 9, sample=n(tier, 150, None)) + gen.fam_widths(rng, 10, sample=n(tier, 150, None)),
             "mutate_per": {"quick": 1, "thorough": 3}, "rule": STREAM_RULE + MUT_RULE + "; extremal families: IPFIX data set packed with 1-byte records (quick: 2000 and 20000, thorough: up to 65000), 4095 chained 16-byte IPFIX messages, 2730 chained empty V5 packets, V9 zero-size templates, headers announcing 65535 records/fields, templates with up to 4000 zero-length fields — always after a history that cached the attacker-chosen template"},
     "C02": {"oracle": "C02", "view": ["outcome", "pkts"], "families": fam_general, "mutate_per": {"quick": 2, "thorough": 4},
@@ -127,7 +127,7 @@ PROPS = {
     "C13": {"oracle": "C13", "view": ["outcome", "pkts", "common"], "families": fam_c13,
             "rule": "V5/V7 packets and V9/IPFIX streams whose templates are built from the projected fields (any subset/order, IPv4/IPv6), several records and sets; flat helper on a twin parser"},
     "C15": {"oracle": "C15", "view": ["outcome", "pkts"], "want_override": ["alloc"],
-            "families": lambda rng, tier: with_want(gen.fam_extremal(rng, tier) + gen.fam_budget(rng, tier) + fam_general(rng, tier) + gen.fam_redefine(rng, n(tier, 40, 300)), ["alloc"]) + gen.fam_scaling(rng, tier),
+            "families": lambda rng, tier: with_want(gen.fam_extremal(rng, tier) + gen.fam_budget(rng, tier) + gen.fam_retry(rng, tier) + gen.fam_bigtemplate_small_sets(rng, tier) + fam_general(rng, tier) + gen.fam_redefine(rng, n(tier, 40, 300)), ["alloc"]) + gen.fam_scaling(rng, tier),
             "mutate_per": {"quick": 1, "thorough": 3},
             "rule": "heap bytes requested from a counting global allocator during parse_bytes (measured in the harness) against A*|buf| + B*size(result) + C with A=64, B=16, C=128 KiB, and size(result) against D*(|buf| + wire size of cached templates) + E with D=256, E=1 KiB (sizes defined in lean/NetflowModel/Cost.lean); growth oracle (assert_scale): the same input shape at size n and 4n on twin parsers, allocation and result size may grow at most 6x (+64 KiB) — templates per flowset, template sets, redefinitions, records, data sets, fields per template, V5/V7 records — and the same small message against caches of size n and 8n must cost the same; extremal families: headers announcing 65535 records/fields over short bodies, buffers packed with minimal packets, maximal record counts, templates with many (zero-length) fields"},
     "C16": {"oracle": "C16", "view": ["outcome", "pkts"],
